@@ -308,6 +308,9 @@ type GenOpts struct {
 	// WriteFail: a Show during which the terminal stops accepting output (Tty.Write fails after
 	// some bytes), followed by an idle Show and a Sync
 	WriteFail bool
+	// Corner: most content goes into the last columns of the bottom row, half of it wide (the
+	// bottom-right corner has special handling on terminals without a way to disable auto-margins)
+	Corner bool
 }
 
 // WeirdColor returns one of those values.
@@ -398,7 +401,12 @@ func Gen(r *rand.Rand, o GenOpts) (int, int, []Op) {
 			if r.IntN(5) == 0 {
 				o2.Y = ch - 1
 			}
+			if o.Corner && r.IntN(4) != 0 {
+				o2.X, o2.Y = cw-1-r.IntN(6), ch-1
+			}
 			switch q := r.IntN(10); {
+			case o.Corner && q < 5:
+				o2.R = RunesWide[r.IntN(len(RunesWide))]
 			case q < 5:
 				o2.R = RunesNarrow[r.IntN(len(RunesNarrow))]
 			case q < 8:
